@@ -66,17 +66,23 @@ def run(chk, repo, tier):
         ev = exits[0]
         carried, final = ev["carried"], ev["final"]
         names = set(carried)
-        chk.ob("C16.R2", construct, "only the salt (and the SK under test) is carried between attempts", {"salt"} <= names <= {"salt", "SK"},
-               f"carried {sorted(names)}", m.where)
-        if "salt" not in carried or "SK" not in final:
+        # roles are found by what the variables are, not by what they are called: the salt is the carried byte string that is
+        # initialised with the draft's constant; the key is the integer the loop produces
+        salt_name = next((nm for nm in sorted(carried) if carried[nm][0] == KEYGEN_SALT or isinstance(carried[nm][0], bytes)), None)
+        w_candidates = [nm for nm in sorted(final) if nm != salt_name and isinstance(final.get(nm), (Term, int))
+                        and getattr(final.get(nm), "sort", "int") == "int" and not isinstance(final.get(nm), bool)]
+        chk.ob("C16.R2", construct, "only the salt (and the key under test) is carried between attempts",
+               salt_name is not None and len(names - {salt_name}) <= 1, f"carried {sorted(names)}", m.where)
+        if salt_name is None:
             continue
-        init_salt, hsalt = carried["salt"]
+        init_salt, hsalt = carried[salt_name]
         chk.ob("C16.R2", construct, "initial salt", init_salt == KEYGEN_SALT, f"initial salt {init_salt!r}", m.where)
         w_salt, w_sk = rfc.keygen_attempt(SHA, hsalt, IKM, KI, r)
-        chk.ob("C16.R2", construct, "salt' = H(salt)", final["salt"] is w_salt, f"got {show(final['salt'])}", m.where)
+        chk.ob("C16.R2", construct, "salt' = H(salt)", final[salt_name] is w_salt, f"got {show(final[salt_name])}", m.where)
+        got_sk = [final[nm] for nm in w_candidates if final[nm] is w_sk]
+        shown = [show(final[nm])[:300] for nm in w_candidates if isinstance(final[nm], Term) and final[nm].op == "mod"][:1]
         chk.ob("C16.R2", construct, "SK' = OS2IP(HKDF-Expand(HKDF-Extract(salt', IKM‖0x00), key_info‖I2OSP(48,2), 48)) mod r",
-               final["SK"] is w_sk, f"got {show(final['SK'])[:500]}; want {show(w_sk)[:500]}", m.where)
-
+               bool(got_sk), f"got {shown}; want {show(w_sk)[:300]}", m.where)
 
 MANIFEST = {
     "level": "other",
